@@ -91,7 +91,7 @@ def guarded_execute(prop, layer, case):
     if threading.current_thread() is not threading.main_thread():
         return layer.execute(case)
     old = signal.signal(signal.SIGALRM, _alarm)
-    signal.setitimer(signal.ITIMER_REAL, STALL_S)
+    signal.setitimer(signal.ITIMER_REAL, getattr(layer, "stall_s", None) or STALL_S)
     try:
         return layer.execute(case)
     except WallClockStall:
